@@ -1,4 +1,4 @@
-; needs slot
+; needs slot strs
 ; Per-slot grouping of a key list (a []string window k over backing array a):
 ; kcnt(k, n, s) = number of positions p < n whose key hashes to slot s. A grouping is the exact, order-preserving
 ; partition of the list iff the p-th key sits at index kcnt(k, p, slot(p)) of its slot's group and every
@@ -27,3 +27,32 @@
   (! (=> (and (>= n 0) (forall ((p Int)) (! (=> (and (<= 0 p) (< p n)) (= (select a (+ (sl.off k) p)) (select b (+ (sl.off l) p)))) :pattern ((select b (+ (sl.off l) p))))))
          (= (kcnt$ a k n s) (kcnt$ b l n s)))
      :pattern ((kcnt$ a k n s) (kcnt$ b l n s)))))
+
+; ---- canonical RESP encoding of a key list: "$<len>\r\n<key>\r\n" per key, concatenated in list order ----
+; sig bulkstr : Str -> Str
+; sig kenc$ : (Array Int Str) Slice Int -> Str
+; sig kenc_unfold$ : (Array Int Str) Slice Int -> Bool
+(declare-const lit_dollar Str)
+(assert (and (= (s_len lit_dollar) 1) (= (s_at lit_dollar 0) #x24)))
+(declare-const lit_crlf Str)
+(assert (and (= (s_len lit_crlf) 2) (= (s_at lit_crlf 0) #x0d) (= (s_at lit_crlf 1) #x0a)))
+(define-fun bulkstr ((k Str)) Str (s_cat lit_dollar (s_cat (itoa (s_len k)) (s_cat lit_crlf (s_cat k lit_crlf)))))
+(declare-fun kenc$ ((Array Int Str) Slice Int) Str)
+(assert (forall ((a (Array Int Str)) (k Slice)) (! (= (s_len (kenc$ a k 0)) 0) :pattern ((kenc$ a k 0)))))
+(declare-fun kenc_unfold$ ((Array Int Str) Slice Int) Bool)
+(assert (forall ((a (Array Int Str)) (k Slice) (j Int))
+  (! (and (kenc_unfold$ a k j)
+          (=> (> j 0) (= (kenc$ a k j) (s_cat (kenc$ a k (- j 1)) (bulkstr (select a (+ (sl.off k) (- j 1))))))))
+     :pattern ((kenc_unfold$ a k j)))))
+
+; ---- the same for a list of key/value pairs ([][2]string): "$..key..$..value.." per pair ----
+; sig penc$ : (Array Int (Array Int Str)) Slice Int -> Str
+; sig penc_unfold$ : (Array Int (Array Int Str)) Slice Int -> Bool
+(declare-fun penc$ ((Array Int (Array Int Str)) Slice Int) Str)
+(assert (forall ((a (Array Int (Array Int Str))) (k Slice)) (! (= (s_len (penc$ a k 0)) 0) :pattern ((penc$ a k 0)))))
+(declare-fun penc_unfold$ ((Array Int (Array Int Str)) Slice Int) Bool)
+(assert (forall ((a (Array Int (Array Int Str))) (k Slice) (j Int))
+  (! (and (penc_unfold$ a k j)
+          (=> (> j 0) (= (penc$ a k j) (s_cat (penc$ a k (- j 1))
+                 (s_cat (bulkstr (select (select a (+ (sl.off k) (- j 1))) 0)) (bulkstr (select (select a (+ (sl.off k) (- j 1))) 1)))))))
+     :pattern ((penc_unfold$ a k j)))))
